@@ -135,7 +135,7 @@ MUTANTS = [
         "        let mut sorted_fields: Vec<(&String, &Pointer)> = self.fields.iter().collect();\n        sorted_fields.sort_by_key(|(name, _)| *name);",
         "        let sorted_fields: Vec<(&String, &Pointer)> = self.fields.iter().collect();")]),
     dict(id="M30", props=["C15"], what="\\t decodes to a space", edits=[(I,
-        "output.write_char('\\t')?;", "output.write_char(' ')?;")]),
+        "buffer.write_char('\\t')?;", "buffer.write_char(' ')?;")]),
     dict(id="M55", props=["C15"], what="surplus print arguments ignored", edits=[(I,
         "    bail_if!(!argument_pointers.is_empty(),\n             \"{} unused arguments for format `{}`\", argument_pointers.len(), format);\n", "")]),
     # ---------------------------------------------------------------- C16
@@ -252,6 +252,21 @@ MUTANTS += [
     dict(id="M3e", props=["C03", "C04"], what="CallFunction writes arity before name (writer only)", edits=[
         (B, "            CallFunction { name: function, arguments } => {\n                function.serialize(sink)?;\n                arguments.serialize(sink)\n            },",
             "            CallFunction { name: function, arguments } => {\n                arguments.serialize(sink)?;\n                function.serialize(sink)\n            },")]),
+]
+
+MUTANTS += [
+    dict(id="M64", props=["C07"], what="GREATER => Operator::GreaterEqual", edits=[(G, "    GREATER  => Operator::Greater,", "    GREATER  => Operator::GreaterEqual,")]),
+    dict(id="M7a", props=["C07"], what="from_binary_expression folds from the right", edits=[(PA,
+        "        other_operators_and_operands.into_iter()\n            .fold(first_operand, |left, (operator, right)| {\n                AST::operation(operator, left, right)\n            })",
+        "        other_operators_and_operands.into_iter().rev()\n            .fold(first_operand, |left, (operator, right)| {\n                AST::operation(operator, left, right)\n            })")]),
+    dict(id="M7b", props=["C07"], what="fold step swaps operands", edits=[(PA,
+        "                AST::operation(operator, left, right)\n            })\n    }", "                AST::operation(operator, right, left)\n            })\n    }")]),
+    dict(id="M7c", props=["C07"], what="line comments containing a star are no longer comments (regex change)", edits=[(G,
+        r'|(//.*)" => { },', r'|(//[^*\n]*)" => { },')]),
+    dict(id="M7d", props=["C07", "C15"], what="string literal admits \\e escape", edits=[(G,
+        r'r#""([^\\"]|\\[~ntr\\"])*""# => STRING_LITERAL,', r'r#""([^\\"]|\\[~ntre\\"])*""# => STRING_LITERAL,')]),
+    dict(id="M7f", props=["C07"], what="a[i] <- v swaps index and value", edits=[(G,
+        "        AST::AssignArray{array: Box::new(array), index: Box::new(index), value: Box::new(v)},", "        AST::AssignArray{array: Box::new(array), index: Box::new(v), value: Box::new(index)},")]),
 ]
 
 MUTANTS = [m for m in MUTANTS if m["edits"]]
